@@ -8,10 +8,16 @@ EXPLANATION = ("The escape functions are per-byte transducers; their loop bodies
                "are decided exhaustively: E1 ldap_escape escapes exactly {\\ * ( ) NUL} = complement of the filter lexer's value class "
                "(extracted from filter.rs) plus the unescaper's trigger byte; E2 dn_escape always escapes a superset of RFC 4514's specials "
                "within ASCII punctuation, space and # only in first position, space only in last; E3 emission order and the single copy of "
-               "the unescaped prefix at the first escape - or, when a first-match search over the whole input decides where the loop starts, once before the loop as input[..start], the search's predicate (evaluated like the loop body) holding wherever the loop escapes; what the loop visits is read from the term of its iterator (enumerate / zip(n..) / split_at / slicing / skip), not from its spelling; E4 the input itself is returned only when nothing was escaped (lazy output still unset, or a contains / position / any / all over the whole input that cannot miss a byte the loop escapes); E5 ldap_unescape drives "
-               "the shared unescaper (itself evaluated exhaustively over all 5120 (state, byte) pairs against the RFC 4515 automaton), copies "
-               "the prefix when the first escape starts, pushes exactly the Value bytes, returns the input when no escape was seen and an "
-               "error when the final state is not Value. Not decided: an RFC 4514 parser (there is none in the repository); round trip taken whole.")
+               "the unescaped prefix at the first escape - or, when a first-match search over the whole input decides where the loop starts, once before the loop as input[..start], the search's predicate (evaluated like the loop body) holding wherever the loop escapes; what the loop visits is read from the term of its iterator (enumerate / zip(n..) / split_at / slicing / skip), not from its spelling; E4 the input itself is returned only when nothing was escaped (lazy output still unset, or a contains / position / any / all over the whole input that cannot miss a byte the loop escapes); E5 ldap_unescape is decided as a transducer: "
+               "the shared unescaper is evaluated exhaustively over all 5120 (state, byte) pairs against the RFC 4515 automaton; the loop is "
+               "explored as the product of its specification (unescaper state; has an escape been seen?; output = nothing / input[..k] at "
+               "the first escape at offset k - empty for k = 0, yet started - / then every Value byte appended) with the program's own "
+               "loop-carried state (the content of its one byte buffer, modelled with reference semantics, and whatever flags it keeps): one "
+               "generic iteration from every reachable product state for every byte 0..255, the byte's index symbolic or - where the "
+               "iteration depends on it - each literal of the finite partition {first byte, later ones}; how the program represents "
+               "'started' (Option, flag, emptiness of the buffer) is never read, only what it stores, copies, appends and finally returns "
+               "from each reachable state: the input itself when no escape was seen, the collected output (or the UTF-8 error) when the "
+               "run ends in Value, an error otherwise. Not decided: an RFC 4514 parser (there is none in the repository); round trip taken whole.")
 TRUSTED = ['String::from_utf8 / Cow semantics', 'the for loop visits the bytes in order (std enumerate)']
 UNDECIDED = ['the RFC 4514 parser side (none in the repository)', 'round-trip equality of whole strings (the per-byte transducer is decided)']
 ASSUMPTIONS = []
@@ -859,6 +865,8 @@ def check_unescape(ctx, f):
         ctx.fail('anchor-missing', 'ldap_unescape state', '', 'expected one Unescaper state variable and one output buffer (Vec<u8> / Option<Vec<u8>>) alive when the byte loop is reached'); return
     ctx.add('E5.iterates-input-bytes-in-order', 'ldap_unescape', loc(UE.loop), UE.iter_ok and not UE.two_phase,
             'the loop does not visit every byte of the input in order, from the first')
+    if UE.walk is None:
+        ctx.fail('E5.unescape-loop', 'ldap_unescape', loc(U.root), 'what the loop iterates over is not a walk over the bytes of the input: the iteration cannot be evaluated'); return
     seen, wrong, init_wrong = T.explore()
     ctx.add('E5.initial-state', 'ldap_unescape', loc(U.root), not init_wrong and bool(seen),
             'the loop must be reached with the unescaper in the Value state and nothing copied: %s' % init_wrong[:3])
